@@ -113,6 +113,7 @@ type upShape struct {
 	Sse     bool   `json:"sse"`
 	Ver     int    `json:"ver"`   // origin speaks HTTP/1.0 (10) or HTTP/1.1 (11)
 	Early   bool   `json:"early"` // the origin answers on seeing the head, without reading the request body
+	Ev      string `json:"ev"`    // event streams: line ending of events (lf, crlf, cr) or "comment" (heartbeat chunk first)
 	Sz      int    `json:"sz"`
 	Hop     bool   `json:"hop"`
 	Cookies bool   `json:"cookies"`
@@ -251,7 +252,15 @@ func (sh *scriptHop) respond(p *peer, connIdx, reqIdx int, req *wireMsg, w io.Wr
 	// gated: part one must reach the client before part two is sent
 	i := bytes.Index(s.body, []byte(evtMarker)) + len(evtMarker)
 	if u.Sse {
-		i += 2 // the blank line ending the event
+		// up to and including the blank line ending the event (or the end of the comment line)
+		switch u.Ev {
+		case "crlf":
+			i += 4
+		case "comment":
+			i++
+		default:
+			i += 2
+		}
 	}
 	p1, p2 := s.body[:i], s.body[i:]
 	switch u.Fr {
@@ -782,13 +791,28 @@ func (he *h1Env) sequence(si int, seq []h1Exchange) map[string]any {
 		id := fmt.Sprintf("s%d-k%d", si, k)
 		path := "/" + id
 		// scripted response
+		if ex.Up.Early && (ex.Req.Copt == "close" || (ex.Req.Ver == 10 && ex.Req.Copt != "ka")) {
+			// an early reply to a request that ends the connection: the proxy closes while the upload is still
+			// arriving and TCP may reset the client before it has read the reply - nothing the statement (about
+			// persistent connections) speaks of; the origin reads the body first in these exchanges
+			ex.Up.Early = false
+		}
 		sc := &script{id: id, up: ex.Up, done: make(chan struct{}), gate: make(chan struct{})}
 		n := pickSize(ex.Up.Sz, salt)
 		plain := payload(he.seed, id, n)
 		streaming := (ex.Up.Sse || ex.Up.Fr == "chunked") && !ex.Up.Gz && !ex.HeaderOnly && ex.Req.M != "HEAD"
 		if streaming {
 			if ex.Up.Sse {
-				plain = []byte("data: first " + evtMarker + "\n\n" + "data: second " + string(payload(he.seed, id, n)) + "\n\n")
+				nl := map[string]string{"crlf": "\r\n", "cr": "\r"}[ex.Up.Ev]
+				if nl == "" {
+					nl = "\n"
+				}
+				if ex.Up.Ev == "comment" {
+					// a heartbeat comment in a chunk of its own: no blank line follows until the next event
+					plain = []byte(": ping " + evtMarker + "\n" + "data: second " + string(payload(he.seed, id, n)) + "\n\n")
+				} else {
+					plain = []byte("data: first " + evtMarker + nl + nl + "data: second " + string(payload(he.seed, id, n)) + nl + nl)
+				}
 			} else {
 				plain = append(append([]byte("part-one "), []byte(evtMarker)...), plain...)
 			}
@@ -867,6 +891,9 @@ func (he *h1Env) sequence(si int, seq []h1Exchange) map[string]any {
 			return res
 		}
 		tr["st"], tr["fr"] = got.Status, got.Framing
+		if ex.Req.Ver == 10 && got.Framing == "chunked" {
+			fail(k, "the chunked coding was sent to an HTTP/1.0 client, which cannot parse it (its body would be the chunk framing itself)")
+		}
 		if ex.Exp.Fr != "cl" || ex.Up.Tr || ex.Undone || ex.HeaderOnly || ex.Up.St != 200 {
 			nt = true
 		}
